@@ -27,6 +27,14 @@ pub enum H {
 pub enum Op {
     /// fire-and-forget Note(id): Addr::send, OwningAddr::send, Sender::send, WeakSender::try_send
     Send(H, u32),
+    /// `n` waiting sends in a row, Note(first), Note(first + 1), ... (Addr::send / Sender::send),
+    /// logged as one operation: Ok iff every one returned Ok
+    Burst(H, u32, u32),
+    /// the future of a waiting send (Addr::send / Sender::send) is polled once and, if it did not
+    /// complete, dropped: a client that gives up (select!, timeout); result `Abandoned` then
+    SendAbandon(H, u32),
+    /// the same for a call (Addr::call / Caller::call)
+    CallAbandon(H, u32),
     /// WeakSender::try_force_send
     ForceSend(H, u32),
     /// Ask(id): Addr::call, OwningAddr::call, Caller::call, WeakCaller::try_call
@@ -60,6 +68,8 @@ pub enum Op {
     ToWeakSender(H),
     ToWeakCaller(H),
     Drop(H),
+    /// the handle is dropped by an unwinding panic that the client contains (catch_unwind)
+    DropUnwinding(H),
     /// OwningAddr::join().await
     Join(H),
     /// create the join future now, await it with JoinAwait(k)
@@ -163,6 +173,61 @@ async fn exec_op(h: &mut Handles, op: Op) -> Res {
             },
             _ => EMPTY,
         },
+        Op::Burst(t, first, n) => {
+            let mut res = Res::Ok;
+            for k in 0..n {
+                let r = match t {
+                    H::Addr(_) => match h.addr_of(t) {
+                        Some(a) => r_unit(a.send(Note(first + k)).await),
+                        None => EMPTY,
+                    },
+                    H::Snd(i) => match h.snd.get(i as usize).and_then(Option::as_ref) {
+                        Some(s) => r_unit(s.send(Note(first + k)).await),
+                        None => EMPTY,
+                    },
+                    _ => EMPTY,
+                };
+                if r != Res::Ok {
+                    res = r;
+                    break;
+                }
+            }
+            res
+        }
+        Op::SendAbandon(t, id) => {
+            let polled = match t {
+                H::Addr(_) => match h.addr_of(t) {
+                    Some(a) => futures::poll!(std::pin::pin!(a.send(Note(id)))),
+                    None => return EMPTY,
+                },
+                H::Snd(i) => match h.snd.get(i as usize).and_then(Option::as_ref) {
+                    Some(s) => futures::poll!(std::pin::pin!(s.send(Note(id)))),
+                    None => return EMPTY,
+                },
+                _ => return EMPTY,
+            };
+            match polled {
+                std::task::Poll::Ready(r) => r_unit(r),
+                std::task::Poll::Pending => Res::Abandoned,
+            }
+        }
+        Op::CallAbandon(t, id) => {
+            let polled = match t {
+                H::Addr(_) => match h.addr_of(t) {
+                    Some(a) => futures::poll!(std::pin::pin!(a.call(Ask(id)))),
+                    None => return EMPTY,
+                },
+                H::Cal(i) => match h.cal.get(i as usize).and_then(Option::as_ref) {
+                    Some(s) => futures::poll!(std::pin::pin!(s.call(Ask(id)))),
+                    None => return EMPTY,
+                },
+                _ => return EMPTY,
+            };
+            match polled {
+                std::task::Poll::Ready(r) => r_reply(r),
+                std::task::Poll::Pending => Res::Abandoned,
+            }
+        }
         Op::ForceSend(t, id) => match t {
             H::WSnd(i) => match h.wsnd.get(i as usize).and_then(Option::as_ref) {
                 Some(s) => r_unit(s.try_force_send(Note(id))),
@@ -418,6 +483,28 @@ async fn exec_op(h: &mut Handles, op: Op) -> Res {
                 H::WAddr(i) => h.waddr.get_mut(i as usize).and_then(Option::take).is_some(),
                 H::WSnd(i) => h.wsnd.get_mut(i as usize).and_then(Option::take).is_some(),
                 H::WCal(i) => h.wcal.get_mut(i as usize).and_then(Option::take).is_some(),
+            };
+            if had {
+                Res::Ok
+            } else {
+                EMPTY
+            }
+        }
+        Op::DropUnwinding(t) => {
+            fn unwind_with<T>(x: Option<T>) -> bool {
+                let had = x.is_some();
+                let _ = std::panic::catch_unwind(std::panic::AssertUnwindSafe(move || {
+                    let _held = x;
+                    panic!("client panic while holding a handle (contained)");
+                }));
+                had
+            }
+            let had = match t {
+                H::Addr(i) => unwind_with(h.addr.get_mut(i as usize).and_then(Option::take)),
+                H::Own(i) => unwind_with(h.own.get_mut(i as usize).and_then(Option::take)),
+                H::Snd(i) => unwind_with(h.snd.get_mut(i as usize).and_then(Option::take)),
+                H::Cal(i) => unwind_with(h.cal.get_mut(i as usize).and_then(Option::take)),
+                _ => false,
             };
             if had {
                 Res::Ok
